@@ -74,7 +74,7 @@ ASSUMPTIONS = [
     "app configuration values are {} / {'k': n}; None <-> {} transitions are not generated",
 ]
 TIERS = {
-    "quick": {"runs": 6000, "chunk": 125, "max_ops": 12},
+    "quick": {"runs": 4000, "chunk": 125, "max_ops": 12},
     "thorough": {"runs": 100000, "chunk": 500, "max_ops": 12},
 }
 REACH_PROBES = [
